@@ -209,12 +209,26 @@ def run(ctx):
         k = good[0].key
         v = good[0].value
         ok = v[0] == "call" and v[1] == cm.qualname and v[2][1] == T.idx(T.attr(SELF, "time_series"), k) and v[2][2] == T.idx(T.attr(SELF, "time_series"), T.add(k, T.num(1)))
+        g3 = v[2][3] if ok and len(v[2]) > 3 else None
+        okg = g3 is not None and g3[0] == "idx" and g3[2] == k and any(x == T.attr(SELF, "initial_guess") for x in T.subterms(g3[1]))
+        ctx.check(okg, "ALIGN", f"{init.qualname} / ALIGN / step k receives the user pairings of step k", ctx.where(init),
+                  "create_mapping(..., self.initial_guess[k])", "the user-supplied pairings handed to step k are not initial_guess[k]")
+        fsi = repo.func("forsys.forsys.ForSys.__post_init__")
+        ctx.touch(fsi)
+        sfs = sym.summarize(repo, fsi.qualname)
+        mk = [e for e in sfs.stores("mesh") if e.value[0] == "call" and e.value[1] == "new:" + TS]
+        okm = len(mk) == 1 and dict(mk[0].value[3]).get("initial_guess") == T.attr(SELF, "initial_guess") and mk[0].value[2][:1] == (T.attr(SELF, "frames"),) \
+            and dict(mk[0].value[3]).get("cm") == T.attr(SELF, "cm")
+        ctx.check(okm, "ALIGN", f"{fsi.qualname} / ALIGN / ForSys hands frames, cm and initial_guess to the TimeSeries", ctx.where(fsi),
+                  "TimeSeries(self.frames, cm=self.cm, initial_guess=self.initial_guess)", "ForSys does not forward its initial_guess / cm / frames to the TimeSeries")
     ctx.check(ok, "GUARD", f"{init.qualname} / GUARD / mapping[k] = create_mapping(series[k], series[k+1]) or None on DifferentTissueException", ctx.where(init),
               "same key in the try and in the handler", "the per-step mapping is not create_mapping(series[k], series[k+1]) with None stored under the same key for incompatible frames")
 
 
 _P = "forsys/time_series.py"
 PINNED = [
+    ("every step gets the pairings of step 0", _P, "self.mapping[key] = self.create_mapping(t0, t1, self.initial_guess[key])", "self.mapping[key] = self.create_mapping(t0, t1, self.initial_guess[0])"),
+    ("ForSys drops the user pairings", "forsys/forsys.py", "            self.mesh = ts.TimeSeries(self.frames, cm=self.cm, \n                                        initial_guess=self.initial_guess)", "            self.mesh = ts.TimeSeries(self.frames, cm=self.cm)"),
     ("injectivity guard dropped in the obverse search", _P, "            for v1 in pool.values():\n                # make the map inyective\n                if v1.id not in found:\n                    xcoord = (v1.x - v0.x)**2\n                    ycoord = (v1.y - v0.y)**2\n                    if xcoord + ycoord < maxspread**2:\n                        candidatesObverse.append(v1)",
      "            for v1 in pool.values():\n                if True:\n                    xcoord = (v1.x - v0.x)**2\n                    ycoord = (v1.y - v0.y)**2\n                    if xcoord + ycoord < maxspread**2:\n                        candidatesObverse.append(v1)"),
     ("injectivity guard dropped in the inverse search", _P, "            for v1 in reversed(pool.values()):\n                # make the map inyective\n                if v1.id not in found:", "            for v1 in reversed(pool.values()):\n                if True:"),
